@@ -131,7 +131,7 @@ fn generators_case<G: CurveTag>(col: &mut Collector) -> Result<(), Failure> {
 }
 
 /// fresh programs, both directions, against the frozen reference revision
-fn fresh_case<G: CurveTag>(bytes: &[u8], col: &mut Collector) -> Result<(), Failure> {
+fn fresh_case<G: CurveTag>(bytes: &[u8], col: &mut Collector, large: bool) -> Result<(), Failure> {
     let cut = bytes.len().min(8);
     let mut chi = Choices::new(&bytes[..cut]);
     let mut ch = Choices::new(&bytes[cut..]);
@@ -205,7 +205,8 @@ fn fresh_case<G: CurveTag>(bytes: &[u8], col: &mut Collector) -> Result<(), Fail
 
 fn dispatch(sub: &str, bytes: &[u8], col: &mut Collector) -> Result<(), Failure> {
     let curve = Curve::from_name(sub.split('/').nth(1).unwrap_or("")).unwrap_or(Curve::Secq);
-    with_curve!(curve, G => fresh_case::<G>(bytes, col))
+    let large = sub.ends_with("/large");
+    with_curve!(curve, G => fresh_case::<G>(bytes, col, large))
 }
 
 pub fn replay(sub: &str, bytes: &[u8], col: &mut Collector) -> Result<(), Failure> {
@@ -223,7 +224,7 @@ pub fn replay(sub: &str, bytes: &[u8], col: &mut Collector) -> Result<(), Failur
 
 pub fn run(tier: &str, seed: u64) -> i32 {
     let mut rep = Report::new("C18", tier, seed);
-    rep.rule = "72 fixtures recorded from the reference revision b4846a6 (3 curves × first-phase gates {0,1,2,3,5,8} × second-phase gates {0,1,3,6}, 0..3 commitments, all allocation paths, user data, empty closures): each proof decodes, splits into the recorded fields, re-encodes identically, is accepted for its statement with a verifier transcript equal to the recorded one operation by operation (labels, payloads, challenge outputs, fork challenge), is rejected for the recorded wrong statements, and the current prover's proof for the same statement is accepted by the frozen reference verifier; generator and Pedersen-base digests are reproduced; plus freshly generated programs (honest and bad-witness) exchanged in both directions between the current tree and the frozen reference revision. Non-trivial = k ≥ 1; distinct = fixture / (program, direction)".into();
+    rep.rule = "99 fixtures recorded from the reference revision b4846a6 (3 curves × [first-phase gates {0,1,2,3,5,8} × second-phase gates {0,1,3,6} + nine larger shapes up to 64+64 and 100+5 gates], 0..3 commitments, all allocation paths, user data, empty closures): each proof decodes, splits into the recorded fields, re-encodes identically, is accepted for its statement with a verifier transcript equal to the recorded one operation by operation (labels, payloads, challenge outputs, fork challenge), is rejected for the recorded wrong statements, and the current prover's proof for the same statement is accepted by the frozen reference verifier; generator and Pedersen-base digests are reproduced; plus freshly generated programs (honest and bad-witness) exchanged in both directions between the current tree and the frozen reference revision. Non-trivial = k ≥ 1; distinct = fixture / (program, direction)".into();
     rep.assumptions = vec![
         "vendor/refrev is an unmodified copy of the reference revision's sources (package renamed), compiled into the harness; both trees run on the instrumented Merlin, which is bit-compatible with the registry crate (KAT-checked at start)".into(),
         "byte-identity of fresh proofs with recorded ones is deliberately not required".into(),
@@ -262,6 +263,9 @@ pub fn run(tier: &str, seed: u64) -> i32 {
         let sub = format!("c18/{}", c.name());
         rep.outcome.merge(replay_corpus("C18", &sub, &|b, col| dispatch(&sub, b, col)));
         rep.outcome.merge(search(&sub, seed, n, 600, &|b, col| dispatch(&sub, b, col)));
+        let subl = format!("c18/{}/large", c.name());
+        let nl = super::scale(tier, 16, 200);
+        rep.outcome.merge(search(&subl, seed, nl, 900, &|b, col| dispatch(&subl, b, col)));
     }
     rep.outcome.exhaustive = false;
     for (c, f) in [("fresh:honest", 0.15), ("fresh:bad-witness", 0.05), ("fresh:two-phase", 0.08)] {
